@@ -40,9 +40,9 @@ def nodePhys (ms : List Mapping) (p : List Seg) : List (List B) := (ms.filter (f
 
 def toSlashes (s : List B) : List B := s.map (fun c => if c = backslash then slash else c)
 
-def isSpace (c : B) : Bool := c == 32 || c == 9 || c == 10 || c == 13 || c == 11 || c == 12
+def isSpace (c : B) : Bool := c == 32 || c == 9
 
-/-- `util::trim` -/
+/-- `util::trim` (blanks and tabs) -/
 def trim (s : List B) : List B := ((s.dropWhile isSpace).reverse.dropWhile isSpace).reverse
 
 /-- state of the walk: the node stack as a segment path, or `none` when even the root was popped -/
